@@ -1,10 +1,81 @@
 import Driver.Wire
+import Sio.Model.Forward
+import Sio.Generated.Forward
 open Lean (Json)
 namespace Sio.KForward
-open Sio.Wire
+open Sio.Wire Sio.Forward
 
-/-- stub: replaced by the kernel's line-protocol handler -/
-def step (_ : Unit) (_ : Json) : Except String (Unit × Json) := throw "kernel not implemented"
+/-
+  Ops (values are opaque tokens = natural numbers chosen by the harness):
+    {"op":"rows"}
+       -> the regenerated table: class, helper, parameters, target, faithful?
+    {"op":"eval","cls":[cp],"helper":[cp],"val":[[param,[token]]…],"selfNs":token,
+     "truthy":[token…],"const":[[src,token]…]}
+       -> {"faithful":bool,"eval":call|null,"expected":call|null}
+       call = {"obj","method","args":[[targetParam,token]…],"resultPassedBack":bool}
+-/
+
+def paramsToJson (ps : List Param) : Json :=
+  Json.arr (ps.map (fun p => Json.arr #[strToJson p.name, Json.bool p.hasDefault])).toArray
+
+def exprToJson : Expr → Json
+  | .param p => Json.mkObj [("param", strToJson p)]
+  | .nsOrSelf => Json.mkObj [("nsOrSelf", Json.bool true)]
+  | .const c => Json.mkObj [("const", strToJson c)]
+  | .opaque s => Json.mkObj [("opaque", strToJson s)]
+
+def binderToJson : Binder → Json
+  | .pos i => Json.mkObj [("pos", Json.num i)]
+  | .kw n => Json.mkObj [("kw", strToJson n)]
+  | .starArgs => Json.str "*"
+  | .starKwargs => Json.str "**"
+
+def rowToJson (r : Row) : Json :=
+  Json.mkObj [("cls", strToJson r.cls), ("helper", strToJson r.helper), ("isAsync", Json.bool r.isAsync),
+    ("params", paramsToJson r.params), ("exotic", Json.bool r.exotic), ("bodyOk", Json.bool r.bodyOk),
+    ("returned", Json.bool r.returned), ("awaited", Json.bool r.awaited),
+    ("targetObj", strToJson r.targetObj), ("targetMethod", strToJson r.targetMethod),
+    ("targetFound", Json.bool r.targetFound), ("targetAsync", Json.bool r.targetAsync),
+    ("targetParams", paramsToJson r.targetParams), ("targetExotic", Json.bool r.targetExotic),
+    ("call", Json.arr (r.call.map (fun be => Json.arr #[binderToJson be.1, exprToJson be.2])).toArray),
+    ("faithful", Json.bool (Faithful r))]
+
+def callToJson : Option (Call Nat) → Json
+  | none => Json.null
+  | some c => Json.mkObj [("obj", strToJson c.obj), ("method", strToJson c.method),
+      ("args", Json.arr (c.args.map (fun a => Json.arr #[strToJson a.1, Json.num a.2])).toArray),
+      ("resultPassedBack", Json.bool c.resultPassedBack)]
+
+def tokPairs (j : Json) : Except String (List (Str × Nat)) := do
+  let a ← j.getArr?
+  a.toList.mapM (fun e => do
+    let p ← e.getArr?
+    match p.toList with
+    | [k, v] => do let ks ← strOfJson k; let n ← v.getNat?; pure (ks, n)
+    | _ => throw "bad pair")
+
+def step (_ : Unit) (j : Json) : Except String (Unit × Json) := do
+  let op ← (← j.getObjVal? "op").getStr?
+  if op == "rows" then
+    pure ((), Json.arr (Generated.forwardTable.map rowToJson).toArray)
+  else if op == "eval" then
+    let cls ← strOfJson (← j.getObjVal? "cls")
+    let helper ← strOfJson (← j.getObjVal? "helper")
+    let vals ← tokPairs (← j.getObjVal? "val")
+    let consts ← tokPairs (← j.getObjVal? "const")
+    let selfNs ← (← j.getObjVal? "selfNs").getNat?
+    let truthy ← (← (← j.getObjVal? "truthy").getArr?).toList.mapM (fun x => x.getNat?)
+    match Generated.forwardTable.find? (fun r => r.cls == cls && r.helper == helper) with
+    | none => throw "no such row"
+    | some r =>
+      let env : Env Nat := {
+        val := fun p => (assoc p vals).getD 0
+        selfNs := selfNs
+        truthy := fun t => truthy.contains t
+        const := fun c => (assoc c consts).getD 0 }
+      pure ((), Json.mkObj [("faithful", Json.bool (Faithful r)), ("eval", callToJson (eval r env)),
+        ("expected", callToJson (expected r env))])
+  else throw s!"unknown op {op}"
 
 def main : IO Unit := lineLoop () step
 
